@@ -840,7 +840,9 @@ def get_unique_label(label: str, labels: dict) -> tp.Tuple[str, dict]:
 
 
 def replace_in_expr(expr: Expr, replacements: dict):
-    expr = expr.subs(replacements, simultaneous=True)
+    # exact (structural) replacement of the arguments: `subs` matches sums algebraically and rewrites e.g. the factor
+    # (2 - a) of (a + r)*(2 - a) as -(a + r) + r + 2 when (a + r) is replaced
+    expr = expr.xreplace(replacements)
     new_args = set(replacements.values())
     for arg_old in replacements:
         # a symbol that is itself the replacement of another symbol (x -> x_v1, x_v1 -> x_v1_v1) has just been
